@@ -386,7 +386,7 @@ func runC13(c c13Case) vh.Result {
 					}
 				}
 				mu.Unlock()
-				if lost, made := attemptsLost(); lost >= 6 || (got == 0 && resuming >= 5) {
+				if lost, made := attemptsLost(); lost >= 10 || (got == 0 && resuming >= 5) {
 					res.Fail("harness-dials-never-arrived", "%s: after %s the client made %d attempts, %d of which never reached the listening server; connections: %s | events: %s", desc, label, made, lost, cl2, ev)
 					return res
 				}
@@ -435,7 +435,7 @@ func runC13(c c13Case) vh.Result {
 			mu.Lock()
 			got := accepted - acceptedBefore
 			mu.Unlock()
-			if lost, made := attemptsLost(); lost >= 6 {
+			if lost, made := attemptsLost(); lost >= 10 {
 				mu.Lock()
 				log := strings.Join(connLog, "; ") + " | events: " + strings.Join(evLog, "; ")
 				mu.Unlock()
